@@ -354,7 +354,7 @@ def run_case(case):
 
 def gen_cases(tier, seed):
     cases = []
-    names = QUICK_SCRIPTS if tier == "quick" else [n for n in sorted(corpus()) if n not in ("login_quit", "nologin", "login_pw", "login_bad_pw", "abor_idle", "misc", "flood")]
+    names = QUICK_SCRIPTS if tier == "quick" else [n for n in sorted(corpus()) if n not in ("login_quit", "nologin", "login_pw", "login_bad_pw", "abor_idle", "misc", "flood", "noconnect_nowait", "login_retry")]
     excs = ["eio", "fault", "timeout", "bare"] if tier == "quick" else ["eio", "enospc", "eacces", "fault", "value", "timeout", "bare"]
     for name in names:
         for i, exc in enumerate(excs):
